@@ -158,7 +158,7 @@ int predict_access_rc(const MFile &f, int rank, int varid, const Access &a, bool
 
 // ---------------------------------------------------------------- annotator
 static void sync_numrecs(MFile &f) { for (auto &r : f.ranks) { r.numrecs = f.numrecs; r.numrecs_dirty = false; } }
-static void mark_synced(MFile &f) { for (auto &v : f.vars) for (auto &c : v.cells) c.synced = 1; }
+static void mark_synced(MFile &f) { for (auto &v : f.vars) for (auto &c : v.cells) c.wmask = 0; }
 static MAtt *find_att(std::vector<MAtt> &l, const std::string &n) { for (auto &a : l) if (a.name == n) return &a; return nullptr; }
 static int resolve_var(const MFile &f, int var) { if (f.vars.empty()) return -2; return ((var % (int)f.vars.size()) + (int)f.vars.size()) % (int)f.vars.size(); }
 static bool any_pending(const MFile &f) { for (auto &r : f.ranks) for (auto &q : r.reqs) if (q.live) return true; return false; }
@@ -190,8 +190,10 @@ static void apply_put(MFile &f, MVar &v, int rank, const Access &a, int opidx, b
         if (v.isrec) { long long rec = e / v.recelems; if (rec + 1 > maxrec) maxrec = rec + 1; ensure_records(v, rec + 1); }
         if (e < 0 || e >= (long long)v.cells.size()) continue;
         Cell &c = v.cells[(size_t)e];
-        if (c.writer >= 0 && c.writer != rank && !c.synced && !(c.st == CS_VALUE && c.v == a.values[k])) { c.st = CS_UNKNOWN; c.writer = (int8_t)rank; c.synced = 0; continue; }
-        c.st = CS_VALUE; c.v = a.values[k]; c.writer = (int8_t)rank; c.synced = 0;
+        uint8_t me = (uint8_t)(1u << rank);
+        if ((c.wmask & ~me) && !(c.st == CS_VALUE && c.v == a.values[k])) { c.st = CS_UNKNOWN; c.wmask |= me; continue; }   // unordered writes by different ranks
+        if (!(c.st == CS_UNKNOWN && (c.wmask & ~me))) { c.st = CS_VALUE; c.v = a.values[k]; }
+        c.wmask |= me;
     }
 }
 static void expect_get(MFile &f, MVar &v, int rank, Access &a) {
@@ -200,7 +202,7 @@ static void expect_get(MFile &f, MVar &v, int rank, Access &a) {
         long long e = a.elems[k];
         if (e < 0 || e >= (long long)v.cells.size()) continue;
         const Cell &c = v.cells[(size_t)e];
-        if (c.writer >= 0 && c.writer != rank && !c.synced) continue;   // not ordered by the documented synchronisation
+        if (c.wmask & ~(uint8_t)(1u << rank)) continue;   // written by another rank and not yet ordered by the documented synchronisation
         if (c.st == CS_VALUE) { a.values[k] = c.v; a.estate[k] = 0; }
         else if (c.st == CS_FILL) a.estate[k] = 1;
     }
@@ -259,7 +261,7 @@ bool model_step(Model &m, Op &op) {
         auto it = m.disk.find(op.name); if (it == m.disk.end()) return skip();
         f = it->second; f.open = true; f.mode = FM_COLL; f.readonly = (op.a[0] == 0); f.fresh = false; f.in_redef = false; f.saved.reset();
         f.ranks.assign(m.nprocs, MRank()); sync_numrecs(f); mark_synced(f);
-        for (auto &v : f.vars) { v.fresh = false; v.fill_known = false; for (auto &c : v.cells) c.writer = -1; }
+        for (auto &v : f.vars) { v.fresh = false; v.fill_known = false; for (auto &c : v.cells) c.wmask = 0; }
         auto h = op.hints.find("nc_burst_buf"); f.bb = (h != op.hints.end() && h->second == "enable");
         return true;
     }
@@ -305,7 +307,7 @@ bool model_step(Model &m, Op &op) {
             v.dimids.push_back(d); v.shape.push_back(f.dims[d].len);
             if (f.dims[d].len != 0) v.recelems *= f.dims[d].len;
         }
-        if (v.recelems > (1 << 20)) return skip();
+        if (v.recelems > (1 << 14)) return skip();
         f.vars.push_back(v); return true;
     }
     case OP_DEF_VAR_FILL: {
@@ -327,9 +329,7 @@ bool model_step(Model &m, Op &op) {
         int vi = resolve_var(f, op.var); if (vi < 0) return skip();
         MVar &v = f.vars[vi]; if (!v.isrec || v.no_fill || !v.fill_known || op.a[0] < 0) return skip();
         long long rec = op.a[0]; ensure_records(v, rec + 1);
-        for (long long k = 0; k < v.recelems; k++) { Cell &c = v.cells[(size_t)(rec * v.recelems + k)]; c = Cell(); c.st = CS_FILL; c.synced = 0; c.writer = -1; }
-        // filled collectively by all ranks: no single writer; conservatively require a syncpoint before cross-rank reads
-        for (long long k = 0; k < v.recelems; k++) v.cells[(size_t)(rec * v.recelems + k)].synced = 1;
+        for (long long k = 0; k < v.recelems; k++) { Cell &c = v.cells[(size_t)(rec * v.recelems + k)]; bool racy = c.wmask != 0; c = Cell(); c.st = racy ? CS_UNKNOWN : CS_FILL; c.wmask = (uint8_t)((1u << m.nprocs) - 1); }
         if (rec + 1 > f.numrecs) f.numrecs = rec + 1;
         sync_numrecs(f); return true;
     }
